@@ -12,7 +12,7 @@ git -C /repo worktree add --detach $ROOT/repo HEAD >/dev/null 2>&1
 mkdir -p $ROOT/harness
 cp -r /verif/harness/src /verif/harness/Cargo.toml /verif/harness/Cargo.lock $ROOT/harness/
 mkdir -p $ROOT/harness/.cargo
-sed "s|/verif/harness/target|$ROOT/harness/target|" /verif/harness/.cargo/config.toml > $ROOT/harness/.cargo/config.toml
+cp /verif/harness/.cargo/config.toml $ROOT/harness/.cargo/config.toml
 sed -i "s|/repo/|$ROOT/repo/|g" $ROOT/harness/Cargo.toml
 rc=0
 for c in "$@"; do
